@@ -669,6 +669,22 @@ func checkC06(p *Prog, l *Ledger) {
 		}
 	}
 	checkParserLines(p, l)
+	// the lines the parser copies are the tokens' lines: they are true lines only if the scanner counts every
+	// consumed newline exactly once (the C09/S4 rule, re-run here because the diagnostic's line depends on it)
+	scratch := NewLedger("C09", "quick", 0, "")
+	checkC09(p, scratch)
+	nl := 0
+	for _, o := range scratch.Obls {
+		if strings.HasPrefix(o.Rule, "C09/S4") || strings.HasPrefix(o.Rule, "C09/S0") {
+			if o.Status != Discharged {
+				nl++
+				l.Violate("C06/S4-token-lines", o.Construct, o.Pos, "token line numbers are wrong, so the diagnostic names the wrong line: "+o.Why)
+			}
+		}
+	}
+	if nl == 0 {
+		l.Discharge("C06/S4-token-lines", "scanner#newline-accounting", "", "every consumed newline advances the line counter exactly once (C09/S4), so token lines — and the node lines derived from them — are true source lines", true)
+	}
 }
 
 type cycleInfo struct{ Site, Pos string }
